@@ -52,3 +52,14 @@ package name
 //@   requires forall s string :: has(nb.idx, s) ==> len(s) <= 65535   // strings stored earlier passed the same check
 //@   ensures length == len(b)
 //@   modifies nb.*, nb.idx[*], nb.data[*]
+
+// Decode: total on arbitrary bytes - every record and string is read inside
+// the table (record array, language-tag records and string storage are
+// bounds-checked before use), the loop terminates.
+//@ assume func utf16Decode(buf []byte) (s string)
+//@   modifies nothing
+//@ func Decode(data []byte) (info *Info, err error)   props: C02 C14
+//@   ensures err == nil ==> info != nil
+//@   loop 0
+//@     invariant 0 <= i && i <= numRec && recBase == 6 && 6 + 12*numRec <= len(data) && macTables != nil && fresh(macTables) && msTables != nil && fresh(msTables) && 0 <= storageOffset && storageOffset <= len(data)
+//@     decreases numRec - i
